@@ -37,6 +37,8 @@ Next == /\ edits = 0 /\ edits' = 1
            \/ \E i \in 0..Len(s), c \in Alphabet : s' = Insert(s, i, c)
            \/ \E i \in DOMAIN s : s' = Delete(s, i)
            \/ \E i \in DOMAIN s : s' = Flip(s, i)
+           \/ \E k \in DOMAIN s : s' = [i \in DOMAIN s |-> IF i < k THEN ToUpperC(s[i]) ELSE s[i]]   \* upper-case a prefix
+           \/ \E k \in DOMAIN s : s' = [i \in DOMAIN s |-> IF i > k THEN ToUpperC(s[i]) ELSE s[i]]   \* upper-case a suffix
 Spec == Init /\ [][Next]_vars
 
 -----------------------------------------------------------------------------
